@@ -145,6 +145,38 @@ def relation(c, x, y):
     return rel
 
 
+def simp_bool(c):
+    """Propositional simplification of a condition term: constants, is_some(Some(..)), double negation, flattening;
+    a conjunction under a negation with all but one conjunct true reduces to the negation of the remaining one."""
+    if not isinstance(c, tuple) or not c:
+        return c
+    if c[0] == 'is_some':
+        return is_some(c[1])
+    if c[0] != 'op':
+        return c
+    if c[1] == 'not':
+        x = simp_bool(c[2][0])
+        return neg_cond(x)
+    if c[1] in ('and', 'or'):
+        xs = []
+        for y in c[2]:
+            y = simp_bool(y)
+            if isinstance(y, tuple) and y and y[0] == 'op' and y[1] == c[1]:
+                xs.extend(y[2])
+            else:
+                xs.append(y)
+        unit, zero = (TRUE, FALSE) if c[1] == 'and' else (FALSE, TRUE)
+        if any(y == zero for y in xs):
+            return zero
+        xs = [y for y in xs if y != unit]
+        if not xs:
+            return unit
+        if len(xs) == 1:
+            return xs[0]
+        return ('op', c[1], tuple(xs))
+    return c
+
+
 def resolve_by(t, c, truth):
     """Resolve every phi in t whose condition is c (or its negation) given that c has the given truth value."""
     nc = neg_cond(c)
